@@ -4,7 +4,7 @@
    session pool, and a re-entrant lock.  The bodies of the real sites are produced by the translator
    (Gen/Generated.v: site_dask, site_spw, site_sensor_get, pool ops). *)
 From Coq Require Import List Arith Bool ZArith.
-From KV Require Import Base.Sx.
+From KV Require Import Base.Sx Gen.Generated.
 Import ListNotations.
 Close Scope Z_scope.
 Open Scope nat_scope.
@@ -20,7 +20,7 @@ Inductive instr :=
 Section Machine.
 Variables (S V : Type) (f : S -> V).
 
-Record shared := mkSh { cell : option V; src : option S; ncomp : nat }.
+Record shared := mkSh { cell : option V; src : option S; ncomp : nat }.   (* ncomp: ghost count of initialisations *)
 Record local := mkLo { ls : option S; lv : option V; lres : option V }.
 Definition lo0 : local := mkLo None None None.
 
@@ -33,9 +33,9 @@ Definition sem (i : instr) (sh : shared) (lo : local) : res (shared * local * na
   | IfSetSkip n => Ok (sh, lo, match cell sh with Some _ => n | None => O end)
   | LoadSrc => match src sh with Some s => Ok (sh, mkLo (Some s) (lv lo) (lres lo), O) | None => Err end
   | Compute => match ls lo with
-               | Some s => Ok (mkSh (cell sh) (src sh) (Datatypes.S (ncomp sh)), mkLo (ls lo) (Some (f s)) (lres lo), O)
+               | Some s => Ok (sh, mkLo (ls lo) (Some (f s)) (lres lo), O)
                | None => Err end
-  | StoreCell => match lv lo with Some v => Ok (mkSh (Some v) (src sh) (ncomp sh), lo, O) | None => Err end
+  | StoreCell => match lv lo with Some v => Ok (mkSh (Some v) (src sh) (Datatypes.S (ncomp sh)), lo, O) | None => Err end
   | ClearSrc => Ok (mkSh (cell sh) None (ncomp sh), lo, O)
   | Return => match cell sh with Some v => Ok (sh, mkLo (ls lo) (lv lo) (Some v), O) | None => Err end
   end.
@@ -127,6 +127,11 @@ Definition r_release (l : rlock) (t : nat) : option rlock :=
 (* ---------- session pool (_Pool.get / put under a lock: each operation is one atomic step) ---------- *)
 Record pool := mkPool { p_free : list nat; p_next : nat; p_held : list (nat * nat) }.   (* held: (thread, item) *)
 Inductive pop := PGet (t : nat) | PPut (t : nat).
+Fixpoint rm_held (t x : nat) (l : list (nat * nat)) : list (nat * nat) :=
+  match l with
+  | [] => []
+  | h :: r => if (Nat.eqb (fst h) t && Nat.eqb (snd h) x)%bool then r else h :: rm_held t x r
+  end.
 Definition pool_step (p : pool) (o : pop) : pool :=
   match o with
   | PGet t => match rev (p_free p) with
@@ -134,20 +139,26 @@ Definition pool_step (p : pool) (o : pop) : pool :=
               | x :: r => mkPool (rev r) (p_next p) ((t, x) :: p_held p)                        (* pool.pop() *)
               end
   | PPut t => match find (fun h => Nat.eqb (fst h) t) (p_held p) with
-              | Some (_, x) =>
-                  mkPool (p_free p ++ [x]) (p_next p)
-                         (let fix rm l := match l with [] => [] | h :: r => if (Nat.eqb (fst h) t && Nat.eqb (snd h) x)%bool then r else h :: rm r end
-                          in rm (p_held p))
+              | Some (_, x) => mkPool (p_free p ++ [x]) (p_next p) (rm_held t x (p_held p))
               | None => p          (* a thread can only return what it borrowed *)
               end
   end.
 Definition pool_init : pool := mkPool [] 0 [].
 
 (* ---------- wire: run a schedule on a concrete instance (S = V = Z, f = successor) ---------- *)
+(* instruction codes shared with the translator (harness/vh/items/c20.py) *)
+Definition decode_instr (p : Z * Z) : instr :=
+  match fst p with
+  | 0%Z => IfSetSkip (Z.to_nat (snd p)) | 1%Z => LoadSrc | 2%Z => Compute
+  | 3%Z => StoreCell | 4%Z => ClearSrc | _ => Return
+  end.
+Definition decode_body (l : list (Z * Z)) : list instr := map decode_instr l.
+Definition site_dask : list instr := decode_body site_dask_code.
+Definition site_spw : list instr := decode_body site_spw_code.
+Definition site_sensor_get : list instr := decode_body site_sensor_get_code.
+
 Definition zbody (x : sx) : list instr :=
-  map (fun i => match i with
-                | L [I 0; I n] => IfSetSkip (Z.to_nat n) | I 1 => LoadSrc | I 2 => Compute
-                | I 3 => StoreCell | I 4 => ClearSrc | _ => Return end) (to_list x).
+  decode_body (map (fun i => match i with L [I c; I a] => (c, a) | _ => (5%Z, 0%Z) end) (to_list x)).
 Definition of_tstate (s : tstate Z Z) : sx :=
   match s with
   | Idle => L [I 0] | InCS r _ => L [I 1; I (Z.of_nat (length r))]
